@@ -185,6 +185,9 @@ NNLS_SOLVER = ["enum"]
 def solve(A, y, nnls):
     if A.shape[1] == 0:
         return np.zeros(0), y.copy()
+    if not (np.isfinite(A).all() and np.isfinite(y).all()) or np.abs(A).max() > 1e150:
+        # LAPACK's dgelsd/dbdsqr can loop forever on NaN / overflowing input (uninterruptible): refuse instead
+        raise ValueError("non-finite or overflowing reference matrix (oracle not applicable)")
     if nnls and NNLS_SOLVER[0] == "scipy":
         from scipy.optimize import nnls as scipy_nnls
 
